@@ -339,6 +339,11 @@ pub fn exec(rest: &str, out: &mut Out) -> (String, bool) {
             let v = match parse_value(a[1]) { Some(v) => v, None => return ("bad-op".into(), false) };
             // json-syntax -> serde_json -> json-syntax
             let nonfinite = has_nonfinite(&v);
+            {
+                let r1 = std::panic::catch_unwind(|| crate::ord::rebuilt(&v).into_serde_json()).ok();
+                let r0 = std::panic::catch_unwind(|| v.clone().into_serde_json()).ok();
+                out.oracle(r0 == r1, "into_serde_json depends on the content only (value rebuilt with heap-backed buffers)", || show_value(&v));
+            }
             let sj = std::panic::catch_unwind(|| v.clone().into_serde_json());
             match sj {
                 Err(_) => {
